@@ -496,7 +496,8 @@ def run_group(chk, runner, wd, scen, iname, inp, B, limit, kinds=("full", "fail"
         r = run_binary(rd, scen, inp, faults[j])
         o, evs, fails = obs_string(r, rd, sc.names)
         sl, complete = spec_line(sc, inp, r, fails)
-        return (o, evs, fails, sl, complete, r.rc, r.stderr[-300:].decode("latin-1"), r.argv, {k: len(v) for k, v in r.files.items()})
+        return (o, evs, fails, sl, complete, r.rc, r.stderr[-300:].decode("latin-1"), r.argv, {k: len(v) for k, v in r.files.items()},
+                r.files if SCENARIOS[scen][0] == "R" else None)
     g["impl"] = common.par_map(one, range(len(faults)), workers=WORKERS)
     return g
 
